@@ -465,6 +465,11 @@ func (p *Parser) parseDict() (core.Object, error) {
 			break
 		}
 
+		// The input may end inside the dictionary (only white space was left)
+		if p.pos >= len(p.data) {
+			return nil, fmt.Errorf("unexpected end of stream in dictionary")
+		}
+
 		// Parse key (must be a name)
 		if p.data[p.pos] != '/' {
 			return nil, fmt.Errorf("dictionary key must be a name")
